@@ -7,7 +7,7 @@
    Delete = remove the equivalent items; ReplaceOrInsert = Delete, then insert in order. *)
 From Octo Require Export Changelog.
 
-Definition gkey : Type := list value.       (* execution.GroupKey; GroupKey.Less = slices_less *)
+Notation gkey := (list value) (only parsing).   (* execution.GroupKey; GroupKey.Less = slices_less *)
 
 Section AssocMap.
   Context {K V : Type}.
